@@ -2,7 +2,7 @@
    Only pinned statements, closed by [exact lemma], with Print Assumptions. *)
 From Coq Require Import List NArith Bool.
 From FT Require Import Model.Base Model.Local Model.Records Model.Collector Model.System
-     Model.Codec Proofs.CodecProofs Proofs.ApiProofs Proofs.RecordsProofs.
+     Model.Codec Proofs.CodecProofs Proofs.ApiProofs Proofs.RecordsProofs Proofs.SystemProofs.
 Import ListNotations.
 Open Scope N_scope.
 
@@ -40,9 +40,22 @@ Proof. exact root_record_fields. Qed.
 Theorem C11_roundtrip : forall c, wf_ctx c -> decode_traceparent (encode_traceparent c) = Some c.
 Proof. exact decode_encode. Qed.
 
+(* every context the API hands out (from_span, current_local_parent), in every history and
+   under every schedule, carries the trace id and the sampling decision of a root the program
+   created: sampled = true only for a trace with a sampled root; the contexts of a trace whose
+   roots are all unsampled carry sampled = false *)
+Theorem C11_extracted_contexts_from_roots :
+  forall dbg rc sc qc h,
+    Forall (fun o => match o with
+                     | OCall (RCtx (Some c)) => In (fst (fst c), snd c) (roots_of h)
+                     | _ => True
+                     end) (snd (run (sys_init dbg rc sc qc) h)).
+Proof. exact extracted_contexts_from_roots. Qed.
+
 Print Assumptions C11_from_span.
 Print Assumptions C11_from_span_noop.
 Print Assumptions C11_current_local_parent.
 Print Assumptions C11_current_local_parent_none.
 Print Assumptions C11_remote_child.
 Print Assumptions C11_roundtrip.
+Print Assumptions C11_extracted_contexts_from_roots.
